@@ -189,6 +189,14 @@ Theorem C09_radius_ball : forall (root : R -> R) (r fuzz u : R) (g : list R),
 Proof. exact ball_radius_bounded. Qed.
 Print Assumptions C09_radius_ball.
 
+(* draw_surface_nsphere (z = r * g / |g|): every point lies exactly ON the sphere of radius r, and the direction of the
+   Gaussian draw is kept (z is a non-negative multiple of g) *)
+Theorem C09_surface_radius : forall (r : R) (g : list R),
+  (0 <= r)%R -> norm g <> 0%R ->
+  norm (radial_point r g) = r /\ exists c : R, (0 <= c)%R /\ radial_point r g = scale c g.
+Proof. exact surface_radius. Qed.
+Print Assumptions C09_surface_radius.
+
 (* finite rejection sampling: drawing from q and keeping with probability w / wmax yields p, normalised.
    HYPOTHESIS made explicit: the candidates ARE drawn with mass q, i.e. the latent draws follow the density whose log-density
    populate uses as log_q (truncated Gaussian, uniform n-ball / n-sphere via alt_dist, Gaussian, uniform, the flow's base).
